@@ -326,7 +326,7 @@ def families(tier):
         dirs = [fl3(d) for d in A.D1] + NEAR
         radii = (0.375, 2.5)
         centres = (CENTRES[1],)
-        sph = [(c, r, n1, n2) for c in CENTRES[:2] for r in (1, 2.5) for n1 in (3, 4, 7, 12) for n2 in (2, 3, 5)]
+        sph = [(c, r, n1, n2) for c in CENTRES[:2] for r in (1, 2.5) for n1 in (3, 4, 7, 12) for n2 in (2, 3, 4, 5)]
         vecs = A.D1
         pe_step = 7
     else:
@@ -343,6 +343,17 @@ def families(tier):
     for kind in ('Cylinder', 'Cone'):
         sc = [(kind, c, r, tuple(x * k for x in d), n) for c in centres[:2] for r in radii for d in dirs for k in hs[:1 if tier == 'quick' else 2] for n in ns]
         fams.append(ListFamily(kind, sc, chunk=25))
+    # the same directions given as short and as long vectors (the axis / normal need not be a unit vector)
+    axisdirs = [fl3(d) for d in A.D1] + NEAR[:12]
+    scaled = []
+    for kind in ('Circle', 'Cylinder', 'Cone'):
+        for d in axisdirs:
+            for k in (0.25, 0.5, 12.0):
+                for n in ((3, 8) if tier == 'quick' else (3, 5, 8, 24)):
+                    scaled.append((kind, CENTRES[1], 1.5, tuple(x * k for x in d), n))
+    scaled += [('Circle', CENTRES[0], 2.0, (1.0, 12.0, 0.0), 6), ('Cylinder', CENTRES[0], 2.0, (1.0, 12.0, 0.0), 6), ('Circle', CENTRES[0], 2.0, (-1.0, 0.0, 30.0), 5),
+               ('Cone', CENTRES[0], 2.0, (0.999, 9.0, -9.0), 7)]
+    fams.append(ListFamily('scaled-axis', scaled, chunk=25))
     fams.append(ListFamily('Sphere', [('Sphere',) + x for x in sph], chunk=4))
     pg = [('Parallelogram', b, X.scal(k, v1), v2) for b in ((0, 0, 0), (1, -2, F(1, 2))) for k in (1, 2, F(1, 2))
           for v1 in vecs for v2 in vecs if not X.is_zero(X.cross(v1, v2))]
